@@ -179,6 +179,7 @@ type effSummary struct {
 	stStores   map[string]bool // fields of *SlimTrie stored (transitively)
 	wireWrites map[string]bool // wire paths of an existing message written in place (stores, copy)
 	buildsSlim bool            // returns a freshly built *Slim
+	paramWrites map[int]bool // parameters whose pointee (a byte slice) is written in place
 }
 
 type versEngine struct {
@@ -267,8 +268,23 @@ func (e *versEngine) effects(f *ssa.Function) *effSummary {
 	if s, ok := e.eff[f]; ok {
 		return s
 	}
-	s := &effSummary{stStores: map[string]bool{}, wireWrites: map[string]bool{}}
+	s := &effSummary{stStores: map[string]bool{}, wireWrites: map[string]bool{}, paramWrites: map[int]bool{}}
 	e.eff[f] = s
+	paramIdxOf := func(v ssa.Value) int {
+		for {
+			if sl, ok := v.(*ssa.Slice); ok {
+				v = sl.X
+				continue
+			}
+			break
+		}
+		for i, prm := range f.Params {
+			if v == ssa.Value(prm) {
+				return i
+			}
+		}
+		return -1
+	}
 	if strings.HasSuffix(e.p.File(f.Pos()), ".pb.go") {
 		return s
 	}
@@ -288,6 +304,9 @@ func (e *versEngine) effects(f *ssa.Function) *effSummary {
 				if wp := wirePathOf(ia.X); wp != "" {
 					s.wireWrites[wp+"[]"] = true
 				}
+				if pi := paramIdxOf(ia.X); pi >= 0 {
+					s.paramWrites[pi] = true
+				}
 			}
 		case *ssa.Call:
 			if bi, ok := x.Call.Value.(*ssa.Builtin); ok && bi.Name() == "copy" {
@@ -298,6 +317,22 @@ func (e *versEngine) effects(f *ssa.Function) *effSummary {
 				if wp := wirePathOf(dst); wp != "" {
 					s.wireWrites[wp+"[]"] = true
 				}
+				if pi := paramIdxOf(dst); pi >= 0 {
+					s.paramWrites[pi] = true
+				}
+			}
+			if calleeOf(x) == nil && !x.Call.IsInvoke() {
+				for _, g := range tableCallTargets(x.Call.Value) {
+					if trieScope(g) && len(g.Blocks) > 0 && g != f {
+						gs := e.effects(g)
+						for k := range gs.stStores {
+							s.stStores[k] = true
+						}
+						for k := range gs.wireWrites {
+							s.wireWrites[k] = true
+						}
+					}
+				}
 			}
 			if g := calleeOf(x); g != nil && trieScope(g) && len(g.Blocks) > 0 && g != f {
 				gs := e.effects(g)
@@ -306,6 +341,26 @@ func (e *versEngine) effects(f *ssa.Function) *effSummary {
 				}
 				for k := range gs.wireWrites {
 					s.wireWrites[k] = true
+				}
+				// a helper that rewrites a slice it is handed: the write lands where the argument points
+				for pi := range gs.paramWrites {
+					if pi >= len(x.Call.Args) {
+						continue
+					}
+					arg := x.Call.Args[pi]
+					for {
+						if sl, ok := arg.(*ssa.Slice); ok {
+							arg = sl.X
+							continue
+						}
+						break
+					}
+					if wp := wirePathOf(arg); wp != "" {
+						s.wireWrites[wp+"[]"] = true
+					}
+					if qi := paramIdxOf(arg); qi >= 0 {
+						s.paramWrites[qi] = true
+					}
 				}
 			}
 		}
@@ -382,6 +437,46 @@ func tableBase(v ssa.Value) *ssa.Alloc {
 		}
 	}
 	return nil
+}
+
+// tableCallTargets: the functions a call through an element of a constant table can reach: every
+// entry of the table (the loop over it calls each of them once).
+func tableCallTargets(v ssa.Value) []*ssa.Function {
+	ld, ok := v.(*ssa.UnOp)
+	if !ok || ld.Op != token.MUL {
+		return nil
+	}
+	ia, ok := ld.X.(*ssa.IndexAddr)
+	if !ok {
+		return nil
+	}
+	al := tableBase(ia.X)
+	if al == nil {
+		return nil
+	}
+	n := al.Type().(*types.Pointer).Elem().Underlying().(*types.Array).Len()
+	var out []*ssa.Function
+	for i := int64(0); i < n; i++ {
+		sv := tableStore(al, i, -1)
+		for {
+			if ct, ok := sv.(*ssa.ChangeType); ok {
+				sv = ct.X
+				continue
+			}
+			break
+		}
+		switch x := sv.(type) {
+		case *ssa.Function:
+			out = append(out, x)
+		case *ssa.MakeClosure:
+			if fn, ok := x.Fn.(*ssa.Function); ok {
+				out = append(out, fn)
+			}
+		default:
+			return nil
+		}
+	}
+	return out
 }
 
 func tableLen(v ssa.Value) (int64, bool) {
@@ -884,6 +979,96 @@ func msgTypeOfParseIn(c *ssa.Call, fr *vframe) (string, ssa.Value) {
 	return t, a
 }
 
+// markVersionValues: the values of fn that hold the header's version: GetVersion() calls on the
+// header returned by pbcmpl.ReadHeader, and the corresponding result of a call to a helper of package
+// trie that returns such a value (headerVersion(buf) (string, error)).
+func markVersionValues(fn *ssa.Function, into map[ssa.Value]bool) {
+	instrsOf(fn, func(_ *ssa.BasicBlock, in ssa.Instruction) {
+		c, ok := in.(*ssa.Call)
+		if !ok {
+			return
+		}
+		if c.Call.IsInvoke() && c.Call.Method.Name() == "GetVersion" {
+			if ex, ok := c.Call.Value.(*ssa.Extract); ok {
+				if rc, ok := ex.Tuple.(*ssa.Call); ok && calleeIs(rc, idReadHeader) {
+					into[c] = true
+				}
+			}
+			return
+		}
+		if g := calleeOf(c); g != nil && trieScope(g) && g != fn {
+			if ri := versionResultIndex(g, 0); ri >= 0 {
+				if g.Signature.Results().Len() == 1 {
+					into[c] = true
+				}
+				if refs := c.Referrers(); refs != nil {
+					for _, ref := range *refs {
+						if ex, ok := ref.(*ssa.Extract); ok && ex.Index == ri {
+							into[ex] = true
+						}
+					}
+				}
+			}
+		}
+	})
+}
+
+// versionResultIndex: the index of the result of g that is the header's version on its success
+// returns (-1 if none).
+func versionResultIndex(g *ssa.Function, depth int) int {
+	if g == nil || len(g.Blocks) == 0 || depth > 1 {
+		return -1
+	}
+	own := map[ssa.Value]bool{}
+	instrsOf(g, func(_ *ssa.BasicBlock, in ssa.Instruction) {
+		if c, ok := in.(*ssa.Call); ok && c.Call.IsInvoke() && c.Call.Method.Name() == "GetVersion" {
+			if ex, ok := c.Call.Value.(*ssa.Extract); ok {
+				if rc, ok := ex.Tuple.(*ssa.Call); ok && calleeIs(rc, idReadHeader) {
+					own[c] = true
+				}
+			}
+		}
+	})
+	if len(own) == 0 {
+		return -1
+	}
+	for _, ret := range returnsOf(g) {
+		for i, rv := range ret.Results {
+			if own[rv] {
+				return i
+			}
+		}
+	}
+	return -1
+}
+
+// versionSourceCall: the ReadHeader call whose header's version is tested, when its reader is
+// bytes.NewReader over the given buffer value (a parameter of fn).
+func versionSourceOK(fn *ssa.Function, buf ssa.Value) (ok bool, pos token.Pos) {
+	instrsOf(fn, func(_ *ssa.BasicBlock, in ssa.Instruction) {
+		c, isC := in.(*ssa.Call)
+		if !isC || !c.Call.IsInvoke() || c.Call.Method.Name() != "GetVersion" {
+			return
+		}
+		ex, isE := c.Call.Value.(*ssa.Extract)
+		if !isE {
+			return
+		}
+		rc, isR := ex.Tuple.(*ssa.Call)
+		if !isR || !calleeIs(rc, idReadHeader) {
+			return
+		}
+		arg := rc.Call.Args[0]
+		if mi, isM := arg.(*ssa.MakeInterface); isM {
+			arg = mi.X
+		}
+		if nr, isN := arg.(*ssa.Call); isN && calleeIs(nr, "bytes.NewReader") && nr.Call.Args[0] == buf {
+			ok, pos = true, c.Pos()
+		}
+	})
+	return
+}
+
 // explore enumerates the feasible paths of Unmarshal for one version.
 func (e *versEngine) explore(ver string) ([]vpath, bool) {
 	var out []vpath
@@ -894,17 +1079,7 @@ func (e *versEngine) explore(ver string) ([]vpath, bool) {
 		root.stVals[un.Params[0]] = true
 	}
 	// the version value: GetVersion() on the header returned by ReadHeader
-	instrsOf(un, func(_ *ssa.BasicBlock, in ssa.Instruction) {
-		if c, ok := in.(*ssa.Call); ok {
-			if c.Call.IsInvoke() && c.Call.Method.Name() == "GetVersion" {
-				if ex, ok := c.Call.Value.(*ssa.Extract); ok {
-					if rc, ok := ex.Tuple.(*ssa.Call); ok && calleeIs(rc, idReadHeader) {
-						root.verVals[c] = true
-					}
-				}
-			}
-		}
-	})
+	markVersionValues(un, root.verVals)
 	memo := map[string]bool{}
 	var run func(fr *vframe, b *ssa.BasicBlock, start int, ev []vevent, seen map[string]int, depth int, k func(ev []vevent, ret *ssa.Return))
 	evKey := func(ev []vevent) string {
@@ -1010,9 +1185,28 @@ func (e *versEngine) explore(ver string) ([]vpath, bool) {
 								}
 							}
 						}
+						markVersionValues(g, nf.verVals)
 						rest := i + 1
 						ev2 := append(append([]vevent{}, ev...), vevent{kind: "enter", detail: g.Name(), pos: in.Pos()})
 						run(nf, g.Blocks[0], 0, ev2, map[string]int{}, depth+1, func(evs []vevent, cret *ssa.Return) {
+							// a helper that returns the version it read: the caller's copy is the version too
+							if cret != nil {
+								for ri, rv := range cret.Results {
+									if !nf.verVals[rv] {
+										continue
+									}
+									if len(cret.Results) == 1 {
+										fr.verVals[in] = true
+									}
+									if refs := in.Referrers(); refs != nil {
+										for _, ref := range *refs {
+											if ex, ok := ref.(*ssa.Extract); ok && ex.Index == ri {
+												fr.verVals[ex] = true
+											}
+										}
+									}
+								}
+							}
 							cls := ""
 							if cret != nil && len(cret.Results) > 0 {
 								last := cret.Results[len(cret.Results)-1]
